@@ -261,6 +261,38 @@ CLAIMED = {
         design="DESIGN.md §5 C15, Appendix A.4, §10",
         technique="Coq invariant proof over an executable LTS (weighted counts + phase disjunction) + exhaustive/random trace correspondence",
         note="Trusted: as C01. Memory orders are C04's; counts >= 2^31, the spinlock's own exchange loop and coroutine frames are outside the model."),
+    "C09": dict(
+        text="Machine-checked layered invariant of the When transition system (one atomic operation per step; ANY number of inputs; "
+             "All<None|FirstFail>, AllTuple<None|FirstFail>, Join<None|FirstFail>) proves for every schedule and result pattern: the "
+             "output promise is set at most once and exactly once in every complete run, never by a step the code cannot survive; "
+             "under None / no failure it is set by the strategy destructor at the last decrement, after every consume step, with "
+             "element i = Result/value of input i for every completion order; under FirstFail with a failure it is set inside the "
+             "consume step of the failing input that is first in the modification order of _done, before any other failing input has "
+             "passed its check, carrying that input's error/exception; every input is consumed and released at most once always and "
+             "exactly once in complete runs regardless of the output; nothing is lost; an empty input set gives an invalid future. "
+             "Tied to the code by running the public WhenAll/Join (iterator/variadic, Future/SharedFuture/mixed, value/void/tuple, n<=4) "
+             "against racing producers, mapping every explored execution to model events and replaying it (model must accept every "
+             "event and predict the output); oracle from the property text judges every execution; ASan/UBSan pass in the thorough tier.",
+        design="DESIGN.md §5 C09, §10",
+        technique="Coq invariant proof over an executable LTS (unbounded inputs) + trace correspondence (extracted-model replay cross-checked by vm_compute) + exhaustive/bounded/random schedule exploration",
+        note="Trusted additionally: OCaml extraction (ExtrOcamlBasic only) + ocamlopt for bulk replay (a sample is re-evaluated inside Coq with "
+             "vm_compute on every run and must agree); operator-new based naming of the combinator's words. Exhaustive for n<=2 with Future "
+             "inputs; SharedFuture/mixed inputs and three-fiber races are bounded; n=3,4 random."),
+    "C10": dict(
+        text="Same transition system, strategies Any<None> (_done), Any<FirstFail> (three-state word, saved error, destructor) and "
+             "Any<LastFail> (packed counter 2*n with parity bit, exact size_t arithmetic modulo 2^64, hypothesis 2n<2^64): for every "
+             "number of inputs, schedule and result pattern the output is set exactly once; None: the input first in the modification "
+             "order of _done; FirstFail: the first value in the modification order of _state, or, only if every input failed, the "
+             "failure whose compare-exchange Empty->Error succeeded, published by the destructor; LastFail: the first value in the "
+             "modification order, or, only if every input failed, the input whose fetch_sub read 2 = last element of the modification "
+             "order, with the invariant even state => state = 2*(n - failures that have subtracted) ruling out a second Set; later "
+             "completions have no effect and complete runs admit no further step; inputs consumed/released exactly once. Tied to the "
+             "code as C09 (public WhenAny, all forms including variant output, value-vs-value and value-vs-last-failure races "
+             "exhaustively for n=2, size_t wrap-around observed on the real code).",
+        design="DESIGN.md §5 C10, §10",
+        technique="Coq invariant proof over an executable LTS (unbounded inputs, N arithmetic) + trace correspondence + schedule exploration",
+        note="As C09. A mutant that replaces the exchange's result by a non-atomic _p.Valid() check is not distinguishable on the cooperative "
+             "sequentially consistent backend; that race is C04's subject."),
 }
 
 PENDING = {}
